@@ -163,6 +163,55 @@ def run(tier, v):
                                     "rq": r["rq"], "sver": m["sver"], "over": m["obs"][k]["ver"]}) + "\n")
                 if len(samples) < 2 and r["rep"] > 0 and sum(1 for d in r["dists"] if d >= 0) > 1:
                     samples.append({"database": m["db"] or "<bundled p0f.fp> " + m["table"], "observation": m["obs"][k], "dists": r["dists"][:12], "reported_entry": r["rep"], "quality_x100": r["rq"]})
+    # ---- through the crates' own matcher wrappers: real messages (heads generated by MC_C05: repeated headers, every subset of the
+    # common headers, start lines) parsed by the HTTP crate and looked up with SignatureMatcher::matching_by_http_request / _response
+    # in the bundled database; the answer must be what a full scan of the table selects FOR THE OBSERVATION THAT IS REPORTED
+    wreq = os.path.join(wd, "wrapper.req")
+    wmeta = []
+    with open(wreq, "w") as f:
+        for fam in ("dup", "common", "start", "cookie"):
+            heads = []
+            vlib.tlc("MC_C05", pid=PID, workers=8, tag_sink=lambda tag, o: heads.append(o), env={"VERIF_FAM": fam, "VERIF_MAXLEN": 2}, timeout=1800, heap="8g", coverage=False)
+            if tier != "thorough":
+                heads = heads[:: max(1, len(heads) // 250)]
+            for kind in ("req", "resp"):
+                datas = [("\r\n".join(h["lines"]) + "\r\n\r\n").encode().hex() for h in heads if h["kind"] == kind]
+                if datas:
+                    f.write(json.dumps({"id": len(wmeta), "op": "match_w", "kind": kind, "datas": datas}) + "\n")
+                    wmeta.append(("http_request" if kind == "req" else "http_response", [h["lines"] for h in heads if h["kind"] == kind]))
+        # responses with runs of repeated lines (several Set-Cookie lines ...), with and without the headers the bundled signatures list
+        base_hdrs = ["Server: Apache/2.2", "Date: Mon, 01 Jan 2024 00:00:00 GMT", "Content-Type: text/html", "Content-Length: 5", "Connection: close", "Accept-Ranges: bytes", "Keep-Alive: timeout=5"]
+        reps = []
+        for n_base in (2, 4, 5, 7):
+            for rep_name in ("Set-Cookie", "X-Trace", "Vary"):
+                for n_rep in (2, 3, 6):
+                    for at in (0, n_base):
+                        hs = base_hdrs[:n_base]
+                        lines_ = ["HTTP/1.1 200 OK"] + hs[:at] + ["%s: v%d" % (rep_name, j) for j in range(n_rep)] + hs[at:]
+                        reps.append(lines_)
+        f.write(json.dumps({"id": len(wmeta), "op": "match_w", "kind": "resp", "datas": [("\r\n".join(l_) + "\r\n\r\nhello").encode().hex() for l_ in reps]}) + "\n")
+        wmeta.append(("http_response", reps))
+    wout = os.path.join(wd, "wrapper.out")
+    vlib.run_hv("http", wreq, wout)
+    n_wrap = 0
+    with open(trace, "a") as f:
+        for o in vlib.read_ndjson(wout):
+            t, heads_ = wmeta[o["id"]]
+            i = len(meta)
+            meta[i] = {"http": True, "sver": [e["sig"]["ver"] for e in db[t]], "obs": [], "db": None, "table": t + " (through SignatureMatcher)"}
+            for k, res in enumerate(o["out"]):
+                if res["r"] == "panic":
+                    v.violation({"table": t, "head_lines": heads_[k][:10], "observed": "panic: " + res["e"]})
+                if res["r"] != "some":
+                    meta[i]["obs"].append(None)
+                    continue
+                r = res["v"]
+                meta[i]["obs"].append({"head_lines": heads_[k][:12], "reported_observation": r["obs"]})
+                n_wrap += 1
+                n_ev += 1
+                n_rep += r["rep"] > 0
+                n_multi += sum(1 for d in r["dists"] if d >= 0) > 1
+                f.write(json.dumps({"id": i, "k": len(meta[i]["obs"]) - 1, "http": True, "dists": r["dists"], "qs": r["qs"], "rep": r["rep"], "rq": r["rq"], "sver": meta[i]["sver"], "over": r["obs"]["ver"]}) + "\n")
     r2 = vlib.tlc("TV_C02", pid=PID, workers=8, env={"TRACE": trace}, timeout=3000, heap="12g")
     table_selection(wd, v)
 
